@@ -1,6 +1,6 @@
 (* C11 — rotation re-expresses the retained subspace. Statements only. *)
 From Coq Require Import String ZArith List Bool Reals Permutation.
-From XV Require Import Model.FlagState Proofs.FlagState_proofs Proofs.RotState_proofs.
+From XV Require Import Model.FlagState Proofs.FlagState_proofs Proofs.RotState_proofs Proofs.C11_varimax_tie.
 From XV Require Import Base.Scalar Base.Sum Base.Mat Base.RInst Model.Eof Model.Rot Gen.T5rot
   Proofs.C01_proofs Proofs.C11_proofs Proofs.C11_real Proofs.C11_tie.
 Import ListNotations.
@@ -96,3 +96,11 @@ Theorem C11_sorted_after_any_history : forall (F : Type) (K : Ops F) (n p : nat)
   r_expvar (fs_data _ s') = vsel K (fs_idx _ s') (r_expvar (fs_fresh _ s')).
 Proof. exact (fun F K n p => @rot_sorted_after_any_history F K n p). Qed.
 Print Assumptions C11_sorted_after_any_history.
+
+(* the matrix of the criterion statement above is the one the source hands to the SVD in each iteration (the expression
+   is emitted by T5rot after a statement-by-statement match of _rotation.py:_varimax; the next rotation matrix is U VT
+   and the loop starts from the identity, as in varimax_run) *)
+Theorem C11_varimax_update_matches_source : forall (p k : nat) (X Rm : list (list R)), (0 < p)%nat ->
+  varimax_target p k X Rm = varimax_update_src OR p k X Rm.
+Proof. exact varimax_update_matches_source. Qed.
+Print Assumptions C11_varimax_update_matches_source.
